@@ -17,10 +17,10 @@ import (
 
 type modGraph struct {
 	inProgress map[*ssa.Function]bool
-	p        *Program
-	succ     map[*ssa.Function][]*ssa.Function
-	addrTake map[string][]*ssa.Function // signature string -> module functions used as values
-	built    bool
+	p          *Program
+	succ       map[*ssa.Function][]*ssa.Function
+	addrTake   map[string][]*ssa.Function // signature string -> module functions used as values
+	built      bool
 }
 
 func (p *Program) MG() *modGraph {
